@@ -88,4 +88,12 @@ theorem pinned_first_gap_short : let p : ℚ := 3; let c : ℚ := 1
 theorem fixed_first_gap_exact : let p : ℚ := 3; let c : ℚ := 1
     (¬ p < c + 1) ∧ (¬ p < c + 2) ∧ p < c + 3 := first_gap_integer_fixed
 
+/-- The open finding `C07:short-gap-after-downward-glide` as a statement: the hypothesis "counter in (0, 1]" of
+    `gap_floor_or_ceil` is necessary. A counter above 1 — which a steep downward glide of the period leaves
+    behind — makes the next gap shorter than `⌊T0⌋`: with `T0 = 20` and counter `3/2` the pulse fires after 19
+    samples (`counter + 18 ≤ T0 < counter + 19`). -/
+theorem counter_above_one_shortens_gap : let p : ℚ := 20; let c : ℚ := 3 / 2
+    (¬ p < c + 18) ∧ p < c + 19 := by
+  norm_num
+
 end Jb.C07
